@@ -501,7 +501,13 @@ func (a *Analysis) CheckC14(rep *Report) {
 			if want, ok := evalEmpty(mainRet); ok {
 				for _, p := range paths {
 					if pathKind(p) == "ok" && !p.Panic && len(p.Ret) == 1 && emptyInputPath(p, data) {
-						if got, ok2 := evalEmpty(p.Ret[0]); ok2 && constant.Compare(got, token.EQL, want) && !hasEvent([]*Path{p}, func(e *Event) bool { return e.Kind == EvRep }) {
+						if got, ok2 := evalEmpty(p.Ret[0]); ok2 && constant.Compare(got, token.EQL, want) && !hasEvent([]*Path{p}, func(e *Event) bool {
+							if e.Kind != EvRep {
+								return false
+							}
+							n, isC := affOf(e.Count).IsConst() // a loop over the empty input it was handed runs zero times
+							return !(isC && n == 0 && !e.Partial)
+						}) {
 							shortcut[p] = true
 						}
 					}
